@@ -696,14 +696,14 @@ class Summariser:
                     ev_r, term_r, ret_r = self.block(rest)
                     self.facts.pop()
                     events.append(If(cond, ev_t, ev_e + ev_r, st.lineno))
-                    return events, term_r, _gate_ret(cond, ret_t, ret_r)
+                    return events, term_r, _gate_ret(cond, ret_t, ret_r, True, term_r)
                 if term_e:
                     self.env, self.fields = env_t, f_t
                     self.facts.append(cond)
                     ev_r, term_r, ret_r = self.block(rest)
                     self.facts.pop()
                     events.append(If(cond, ev_t + ev_r, ev_e, st.lineno))
-                    return events, term_r, _gate_ret(cond, ret_r, ret_e)
+                    return events, term_r, _gate_ret(cond, ret_r, ret_e, term_r, True)
                 events.append(If(cond, ev_t, ev_e, st.lineno))
                 self.env = self.merge(cond, env_t, env_e)
                 self.fields = self.merge(cond, f_t, f_e, field=True)
@@ -1169,6 +1169,10 @@ class Summariser:
                 bound = self._bound_method_call(recv, args, dict(kwargs), events, e)
                 if bound is not None:
                     return bound
+                if recv[0] == "global" and not recv[1].startswith(("?", "builtins.")):
+                    ext = self._dotted_call(recv[1], args, kwargs, events, e)
+                    if ext is not None:
+                        return ext
                 res = ("res", self.site(e), "local:" + f.id, args, kwargs)
                 events.append(Call("local:" + f.id, None, recv, args, kwargs, res, line))
                 return res
@@ -1202,6 +1206,8 @@ class Summariser:
                 events.append(Call("?" + f.id, None, None, args, kwargs, res, line))
                 return res
         if d is not None:
+            return self._dotted_call(d, args, kwargs, events, e)
+        if False:
             if d.startswith("random.") or d.startswith("numpy.random.") or d in ("random", "numpy.random"):
                 res = ("draw", self.site(e), d, args, kwargs, self.loops)
                 events.append(Draw(d, args, kwargs, res, line))
@@ -1261,6 +1267,36 @@ class Summariser:
         recv = self._expr(f, events)
         res = ("res", self.site(e), "expr-call", (recv,) + args, kwargs)
         events.append(Call("expr", None, recv, args, kwargs, res, line))
+        return res
+
+    def _dotted_call(self, d, args, kwargs, events, e):
+        """Call of a resolved dotted name (external library, package class or package function)."""
+        line = e.lineno
+        if d.startswith("random.") or d.startswith("numpy.random.") or d in ("random", "numpy.random"):
+            res = ("draw", self.site(e), d, args, kwargs, self.loops)
+            events.append(Draw(d, args, kwargs, res, line))
+            return res
+        if d in PURE_EXT:
+            return ("fn", PURE_EXT[d], args + tuple(("kw",) + kv for kv in kwargs))
+        if d in COPY_EXT:
+            return ("new", self.site(e), COPY_EXT[d], args)
+        if d in IDENTITY_EXT and args:
+            return args[0]
+        r = self.prog.resolve_dotted(d)
+        if r[0] == "class":
+            res = ("new", self.site(e), r[1].qual, args + tuple(("kw",) + kv for kv in kwargs))
+            events.append(Construct(r[1].qual, args, kwargs, res, line))
+            return res
+        if r[0] == "func":
+            m, node = r[1]
+            q = f"{m.name}.{node.name}"
+            if self._can_inline_function(m, node):
+                return self.inline_function(m, node, q, args, dict(kwargs), events, e)
+            res = ("res", self.site(e), q, args, kwargs)
+            events.append(Call(q, None, None, args, kwargs, res, line))
+            return res
+        res = ("res", self.site(e), d, args, kwargs)
+        events.append(Call(d, None, None, args, kwargs, res, line))
         return res
 
     def _bound_method_call(self, recv, args, kwargs, events, node):
@@ -1460,13 +1496,24 @@ def _partial_exit(st):
     return (s1 and not a1) or (s2 and not a2)
 
 
-def _gate_ret(cond, a, b):
+RAISES = ("raises",)
+
+
+def _gate_ret(cond, a, b, a_term=True, b_term=True):
+    """Returned value of an `if` whose arms return a / b. An arm that terminates without a value raised:
+    it is kept as the marker ("raises",) so that the other arm's value stays tied to its condition."""
+    if a is None and a_term:
+        a = RAISES
+    if b is None and b_term:
+        b = RAISES
     if a is None and b is None:
         return None
     if a is None:
-        return b
+        return b if b != RAISES else None
     if b is None:
-        return a
+        return a if a != RAISES else None
+    if a == RAISES and b == RAISES:
+        return None
     return gate(cond, a, b)
 
 
